@@ -323,7 +323,9 @@ def api_pollution(word: str):
         except Exception:
             return [None] * len(ddls)
 
-    for w in (word.upper(), word.lower()):
+    # the unit-level violation is "a keyword table was written"; which word shows it through the public API
+    # depends on the table: besides the word of the counterexample, words usable inside CHECK / options are tried
+    for w in (word.upper(), word.lower(), "OR", "or", "SET", "ORDER", "WITH", "TYPE", "REPLACE"):
         victims = [v.replace("{W}", w) for v in VICTIMS]
         alone = [fresh([v])[0] for v in victims]
         for p in POLLUTERS:
